@@ -51,6 +51,15 @@ def step (s : S) (line : String) : S × String :=
     match u.toNat?, n.toNat? with
     | some u, some n => let s' : S := { unique := u == 1, univ := n }; (s', "ok - " ++ observe s')
     | _, _ => (s, "bad-op")
+  | ["delslice", a, b, k] =>
+    -- `del c[a:b:k]` on a list-like collection (`-` is an omitted bound); sets refuse slices
+    let ob (t : String) : Option (Option Int) := if t == "-" then some none else t.toInt?.map some
+    match ob a, ob b, k.toInt? with
+    | some a, some b, some k =>
+      if s.unique || k == 0 then (s, "bad-op") else
+      let s' := { s with list := pyDelSlice s.list a b k }
+      (s', "ok - " ++ observe s')
+    | _, _, _ => (s, "bad-op")
   | "extend" :: xs =>
     -- `extend` / `update` / `+=`: the elements are added one after the other (`C04_run` covers the sequence)
     match xs.mapM String.toNat? with
